@@ -41,6 +41,17 @@ func init() {
 					}
 				}
 			}
+			// one tensor object supplied at every position; lists that exceed the maximum by nil entries
+			for n := 2; n <= max && name != "Concat"; n++ {
+				if n >= min {
+					p.Jobs = append(p.Jobs, Job{Harness: "opset13.H_C15_gate", Case: map[string]interface{}{"op": name, "n": n, "nilmask": 0, "spare": 0, "alias": true}})
+				}
+			}
+			if name != "Concat" {
+				for _, n := range []int{max + 1, max + 2} {
+					p.Jobs = append(p.Jobs, Job{Harness: "opset13.H_C15_gate", Case: map[string]interface{}{"op": name, "n": n, "nilmask": 0, "spare": n % 2, "excessnil": true}})
+				}
+			}
 			if name == "Concat" {
 				// long input lists of the variadic operator
 				for _, n := range []int{7, 8, 9, 16, 17} {
